@@ -181,6 +181,19 @@ KindTab ==
         clss |-> {"dup", "del", "rename", "delattr", "addattr", "swap",
                  "text", "emptyattr", "unwrap"},
         shapes |-> Shapes]
+  (* h_num: ONE response HEADER whose value the client side converts to a   *)
+  (* number, carrying a lexeme of every numeric text class (the classes of  *)
+  (* v_num).  ty = the header: resptime = WBEMServerResponseTime (pywbem:    *)
+  (* float(value)/1000000 in wbem_request, whatever the status), clen =      *)
+  (* Content-Length (requests/urllib3 below pywbem: framing of the body).    *)
+  @@ "h_num" :> [stage |-> "header",
+        sites |-> {""},
+        tys |-> {"resptime", "clen"},
+        clss |-> {"dec", "neg", "hex", "inf", "ninf", "nan", "e999", "oor",
+                 "empty", "ws", "frac", "alpha", "plus", "usc", "udig",
+                 "long", "junk", "big", "hexbig", "hexlong", "fracbig",
+                 "expneg"},
+        shapes |-> Shapes]
   @@ "m_misc" :> [stage |-> "optype",
         sites |-> {""},
         tys |-> {""},
@@ -463,6 +476,10 @@ Family(stage) ==
   CASE stage = "transport" -> {"ConnectionError", "TimeoutError"}
     [] stage = "status"    -> {"AuthError", "HTTPError"}
     [] stage = "ctype"     -> {"HeaderParseError"}
+    (* a header that cannot be interpreted, or that contradicts the body    *)
+    (* (Content-Length: framing fault, on a socket also a read timeout)      *)
+    [] stage = "header"    -> {"HeaderParseError", "ConnectionError",
+                               "TimeoutError"}
     [] stage = "utf8"      -> {"XMLParseError"}
     [] stage = "xml"       -> {"XMLParseError"}
     [] stage = "envelope"  -> {"CIMXMLParseError"} \cup VersionErrors
